@@ -101,27 +101,32 @@ theorem quote_idempotent (s : Str) : safelyQuote (safelyQuote s) = safelyQuote s
 `tables_percent_unsafe`) -/
 
 /-- **token-level characterisation**: the scan of the output is exactly the token list the
-model assembles, every token of which is (`OutTok`) a raw non-space character of the input, a
+model assembles (from the scan of the input with its raw non-printable characters escaped,
+`escapeRaw`), every token of which is (`OutTok`) a raw non-space character of the input, a
 well-formed escape, a decoded printable ASCII character outside `U`, or a decoded non-ASCII
-character that is not a C1 control -/
+character that is not a C1 control; and no raw character of the output is one that
+`NON_PRINTABLE_RE` matches -/
 theorem unquote_tokens (U : List UInt8) (hU : (0x25 : UInt8) ∈ U) (s : Str) :
-    tokens (safelyUnquote U s) = unquoteToks U (tokens s) ∧
-    ∀ t ∈ unquoteToks U (tokens s), OutTok U (tokens s) t := by
-  have hout := outTok_unquoteToks U (tokens s) (wf_tokens s)
-  exact ⟨tokens_render_of_canon _ (fun t ht => canon_of_outTok hU (wf_tokens s) (hout t ht)), hout⟩
+    tokens (safelyUnquote U s) = unquoteToks U (escapeRaw (tokens s)) ∧
+    (∀ t ∈ unquoteToks U (escapeRaw (tokens s)), OutTok U (escapeRaw (tokens s)) t) ∧
+    (∀ c, Tok.raw c ∈ unquoteToks U (escapeRaw (tokens s)) → staysEscaped c = false) := by
+  have hw := wf_escapeRaw (wf_tokens s)
+  have hout := outTok_unquoteToks U (escapeRaw (tokens s)) hw
+  exact ⟨tokens_render_of_canon _ (fun t ht => canon_of_outTok hU hw (hout t ht)), hout,
+    raw_unquoteToks U (fun c hc => (raw_mem_escapeRaw hc).2)⟩
 
 /-- the output decodes to the same bytes as the input: nothing is lost, nothing is decoded
 twice, undecodable bytes stay escaped -/
 theorem unquote_pct (U : List UInt8) (hU : (0x25 : UInt8) ∈ U) (s : Str) :
     pctStr (safelyUnquote U s) = pctStr s := by
-  simp only [pctStr, (unquote_tokens U hU s).1, pct_unquoteToks]
+  simp only [pctStr, (unquote_tokens U hU s).1, pct_unquoteToks, pct_escapeRaw]
 
 /-- the output contains no raw space -/
 theorem unquote_no_space (U : List UInt8) (s : Str) : ' ' ∉ safelyUnquote U s := by
   intro hmem
   simp only [safelyUnquote, render, List.mem_flatMap] at hmem
   obtain ⟨t, ht, hch⟩ := hmem
-  have := outTok_unquoteToks U (tokens s) (wf_tokens s) t ht
+  have := outTok_unquoteToks U (escapeRaw (tokens s)) (wf_escapeRaw (wf_tokens s)) t ht
   cases this with
   | input c _ hc => simp [renderTok] at hch; exact hc hch.symm
   | esc h1 h2 a b =>
@@ -147,7 +152,7 @@ never unescaped, a raw one never escaped -/
 theorem unquote_delimiters (U : List UInt8) (hU : (0x25 : UInt8) ∈ U) (d : Char)
     (hd : d.toNat < 0x80) (hsp : d ≠ ' ') (hdU : UInt8.ofNat d.toNat ∈ U) (s : Str) :
     (tokens (safelyUnquote U s)).count (.raw d) = (tokens s).count (.raw d) := by
-  rw [(unquote_tokens U hU s).1, count_unquoteToks U d hd hsp hdU]
+  rw [(unquote_tokens U hU s).1, count_unquoteToks U d hd hsp hdU, count_escapeRaw d hd]
 
 /-- C0 / DEL / C1 control characters -/
 def isControl (c : Char) : Prop := c.toNat < 0x20 ∨ (0x7f ≤ c.toNat ∧ c.toNat ≤ 0x9f)
@@ -158,14 +163,14 @@ theorem unquote_no_new_control (U : List UInt8) (s : Str) :
   intro ch hmem hctl
   simp only [safelyUnquote, render, List.mem_flatMap] at hmem
   obtain ⟨t, ht, hch⟩ := hmem
-  have := outTok_unquoteToks U (tokens s) (wf_tokens s) t ht
+  have := outTok_unquoteToks U (escapeRaw (tokens s)) (wf_escapeRaw (wf_tokens s)) t ht
   cases this with
   | input c hc _ =>
     simp only [renderTok, List.mem_singleton] at hch
     subst hch
     rw [← Quote.render_tokens s]
     simp only [render, List.mem_flatMap]
-    exact ⟨_, hc, by simp [renderTok]⟩
+    exact ⟨_, (raw_mem_escapeRaw hc).1, by simp [renderTok]⟩
   | esc h1 h2 a b =>
     exfalso
     simp only [renderTok, List.mem_cons, List.not_mem_nil, or_false] at hch
@@ -200,7 +205,7 @@ theorem unquote_idempotent (U : List UInt8) (hU : (0x25 : UInt8) ∈ U) (hA : As
     safelyUnquote U (safelyUnquote U s) = safelyUnquote U s := by
   have h := (unquote_tokens U hU s).1
   unfold safelyUnquote at h ⊢
-  rw [h, unquoteToks_idem U hU hA]
+  rw [h, escapeRaw_unquoteToks, unquoteToks_idem U hU hA]
 
 /-! ## non-vacuity: the four regenerated configurations on a string with every kind of token -/
 
